@@ -56,6 +56,11 @@ CHECKS = {
          "For each valid encoded stream of the seed corpus and each reader entry point, every partition of the stream into successive reads with up to 2 cut points (3 for short streams in thorough), uniform 1..8-byte chunks, and both EOF delivery modes is replayed through the real decoder; decoded objects, byte counts and the end-of-stream condition must equal the whole-buffer result. The chunking of a stream is the only nondeterminism a reader sees, and a short read at any single offset is enough to expose a missing read loop.",
          "Trusted: the chunking reader (40 lines). Zero-byte non-EOF reads are not generated. Streams are the corpus encodings, not all valid streams.",
          "DESIGN.md §4 C18"),
+ "C17": ("exploration",
+         "complete enumeration of the edit-distance-1 neighbourhood of a corpus of valid encodings plus all very short byte strings, per decoder entry point",
+         "For every valid encoding of the seed corpus (incl. s2-compressed objects and a real sender packfile) every truncation, every listed byte replacement, every 2/4-byte big-endian overwrite with boundary values, every one-byte insertion/deletion is generated - the complete neighbourhood, not a sample - and fed to every decoder entry point and to ObjectReceiver.Receive (empty and pre-populated store); plus all byte strings of length <= 2 and all 3..4-byte strings over a 7-byte alphabet. Each call must return without panic, within a read-count bound and a heap-allocation bound measured from the runtime's allocation counter; after a rejected packfile nothing of the rejected object may remain. Workers run under ulimit -v so runaway allocations are captured as replayable crashes.",
+         "Trusted: the mutation enumerator; runtime/metrics allocation counter (single-goroutine workers). Inputs further than one edit from a valid encoding are covered only up to length 4. One known finding: the s2 codec allocates its declared decoded length (see known_findings.json).",
+         "DESIGN.md §4 C17"),
 }
 
 NOT_YET = {}
